@@ -641,6 +641,84 @@ Proof.
   apply core_unix; assumption.
 Qed.
 
+(* ------------------------------------------------------------------ every socket of an upstream *)
+
+(* for ANY address / dial_addr NewUpstream accepts: the sockets are the primary one and, for a udp upstream only,
+   the TCP retry socket — and that one is handed the very same address *)
+Lemma sockets_shape addr da ep :
+  endpoint_of addr da = Ok ep ->
+  ep_sockets ep =
+    (ep_net ep, ep_dial ep) :: match ep_scheme ep with SUdp => [(NTcp, ep_dial ep)] | _ => [] end.
+Proof.
+  unfold endpoint_of.
+  destruct (match cut_sep addr with Some (a, r) => (a, r) | None => (s_udp, addr) end) as [st rest].
+  destruct (negb (scheme_chars_ok st)); [discriminate|].
+  destruct (parse_scheme st) as [[[sc pl] h3]|]; [|discriminate].
+  destruct (url_host_ok (url_host rest)); [|discriminate].
+  intros H. inversion H; subst; clear H.
+  unfold ep_sockets, endpoint_core. cbn [ep_net ep_dial ep_fallback ep_scheme].
+  destruct sc; reflexivity.
+Qed.
+
+Lemma sockets_same_target addr da ep :
+  endpoint_of addr da = Ok ep ->
+  forall s, In s (ep_sockets ep) ->
+    snd s = ep_dial ep /\ (fst s = ep_net ep \/ (ep_scheme ep = SUdp /\ fst s = NTcp)).
+Proof.
+  intros H s Hin. rewrite (sockets_shape _ _ _ H) in Hin.
+  destruct Hin as [E|Hin]; [subst s; cbn; auto|].
+  destruct (ep_scheme ep) eqn:Es; cbn in Hin; try contradiction.
+  destruct Hin as [E|[]]. subst s. cbn. auto.
+Qed.
+
+Lemma endpoint_core_scheme sc pl h3 host d : ep_scheme (endpoint_core sc pl h3 host d) = sc.
+Proof. reflexivity. Qed.
+
+(* on the grammar: every socket goes to  join host (port or default)  *)
+Lemma all_sockets st k h p path :
+  scheme_entry st k -> path_ok st path -> wf_host h = true -> wf_port_opt p = true ->
+  let sc := fst (fst k) in let h3 := snd k in
+  let target := join_host_port (host_name h) (port_or_default sc p) in
+  exists ep, endpoint_of (url_of st h p path) [] = Ok ep /\
+    In (expected_net sc h3, target) (ep_sockets ep) /\
+    (sc = SUdp -> In (NTcp, target) (ep_sockets ep)) /\
+    forall s, In s (ep_sockets ep) ->
+      snd s = target /\ (fst s = expected_net sc h3 \/ (sc = SUdp /\ fst s = NTcp)).
+Proof.
+  intros Hs Hp W Wp. cbv zeta.
+  pose proof (endpoint_of_any st k h p path [] Hs Hp W Wp) as E.
+  destruct (core_no_override (fst (fst k)) (snd (fst k)) (snd k) h p W Wp) as (A & B & _ & _).
+  eexists. split; [exact E|].
+  pose proof (sockets_shape _ _ _ E) as Sh. rewrite endpoint_core_scheme, A, B in Sh.
+  split; [rewrite Sh; left; reflexivity|].
+  split; [intros Eu; rewrite Sh, Eu; right; left; reflexivity|].
+  intros s Hin. destruct (sockets_same_target _ _ _ E s Hin) as [T N].
+  rewrite endpoint_core_scheme, A in *. rewrite B in N. split; [exact T|exact N].
+Qed.
+
+(* ... and to the dial_addr override when one is configured: NO socket goes to the URL host *)
+Lemma all_sockets_override st k h p path dh dpo :
+  scheme_entry st k -> path_ok st path -> wf_host h = true -> wf_port_opt p = true ->
+  wf_host dh = true -> wf_port_opt dpo = true ->
+  let sc := fst (fst k) in let h3 := snd k in
+  let target := join_host_port (host_name dh) (port_or_default sc dpo) in
+  exists ep, endpoint_of (url_of st h p path) (dial_text dh dpo) = Ok ep /\
+    In (expected_net sc h3, target) (ep_sockets ep) /\
+    (sc = SUdp -> In (NTcp, target) (ep_sockets ep)) /\
+    forall s, In s (ep_sockets ep) ->
+      snd s = target /\ (fst s = expected_net sc h3 \/ (sc = SUdp /\ fst s = NTcp)).
+Proof.
+  intros Hs Hp W Wp Wd Wdp. cbv zeta.
+  pose proof (endpoint_of_any st k h p path (dial_text dh dpo) Hs Hp W Wp) as E.
+  destruct (core_override (fst (fst k)) (snd (fst k)) (snd k) h p dh dpo W Wp Wd Wdp) as (A & B & _ & _).
+  eexists. split; [exact E|].
+  pose proof (sockets_shape _ _ _ E) as Sh. rewrite endpoint_core_scheme, A, B in Sh.
+  split; [rewrite Sh; left; reflexivity|].
+  split; [intros Eu; rewrite Sh, Eu; right; left; reflexivity|].
+  intros s Hin. destruct (sockets_same_target _ _ _ E s Hin) as [T N].
+  rewrite endpoint_core_scheme, A in *. rewrite B in N. split; [exact T|exact N].
+Qed.
+
 (* a join of the grammar splits back into exactly its parts: the dial target denotes that host and that port *)
 Lemma split_join h port :
   wf_host h = true -> forallb is_digit port = true ->
@@ -698,6 +776,54 @@ Section TlsProofs.
     intros Hv Hk. unfold listener_serves, make_tls_config. rewrite Hv, Hk. reflexivity.
   Qed.
 End TlsProofs.
+
+(* a configured ca REPLACES the system roots: whatever the system store trusts, a certificate that does not chain
+   to the configured ca is refused (upstream side, unless verification is switched off) ... *)
+Lemma ca_exclusive_upstream (cert : Type) (chains_to : ca_pool -> cert -> bool)
+    (name_matches : cert -> list N -> bool) (time_valid : cert -> bool) o sni k :
+  o_ca o = true -> o_insecure o = false -> chains_to ConfiguredCA k = false ->
+  upstream_exchange_ok cert chains_to name_matches time_valid o sni (Some k) = false.
+Proof.
+  intros Hca Hi Hc. unfold upstream_exchange_ok, make_tls_config. cbn [andb].
+  destruct (o_verify_client o && negb (o_ca o)); [reflexivity|].
+  unfold client_accepts. cbn. rewrite Hi, Hca, Hc. reflexivity.
+Qed.
+
+(* ... and on a listener with verify_client_cert *)
+Lemma ca_exclusive_listener (cert : Type) (chains_to : ca_pool -> cert -> bool) (time_valid : cert -> bool) o k :
+  o_verify_client o = true -> chains_to ConfiguredCA k = false ->
+  listener_serves cert chains_to time_valid o (Some k) = false.
+Proof.
+  intros Hv Hc. unfold listener_serves, make_tls_config. rewrite Hv.
+  destruct (true && negb (o_cert_key o)); [reflexivity|].
+  destruct (true && negb (o_ca o)); [reflexivity|].
+  unfold server_accepts. cbn. rewrite Hc. reflexivity.
+Qed.
+
+(* system roots by default: with no ca configured the decision is exactly x509 verification against them *)
+Lemma system_roots_default (cert : Type) (chains_to : ca_pool -> cert -> bool)
+    (name_matches : cert -> list N -> bool) (time_valid : cert -> bool) o sni k :
+  o_ca o = false -> o_verify_client o = false -> o_insecure o = false ->
+  upstream_exchange_ok cert chains_to name_matches time_valid o sni (Some k) =
+    chains_to SystemRoots k && time_valid k && name_matches k sni.
+Proof.
+  intros Hca Hv Hi. unfold upstream_exchange_ok, make_tls_config. rewrite Hca, Hv, Hi. reflexivity.
+Qed.
+
+(* makeTlsConfig: RootCAs is the configured ca alone, or nil (= system roots) when none is configured; ClientCAs
+   is never the system store *)
+Lemma tls_config_pools o rc :
+  tls_config_view o rc =
+    if rc && negb (o_cert_key o) then None
+    else if o_verify_client o && negb (o_ca o) then None
+    else Some (o_insecure o, (if o_ca o then ConfiguredCA else SystemRoots), o_cert_key o,
+               (if o_verify_client o then RequireAndVerifyClientCert else NoClientCert),
+               (if o_verify_client o then Some ConfiguredCA else None)).
+Proof.
+  unfold tls_config_view, make_tls_config.
+  destruct (rc && negb (o_cert_key o)); [reflexivity|].
+  destruct (o_verify_client o && negb (o_ca o)); reflexivity.
+Qed.
 
 Lemma client_auth_iff o rc c :
   make_tls_config o rc = Ok c ->
